@@ -97,3 +97,9 @@ CASES += [
     {"name": "squared dipoles as a sum of squares over the last axis", "kind": "twin", "edits": [
         (_AB12, _DD2, "        dd2 = numpy.sum(self.DD**2, axis=2)\n", 1)]},
 ]
+
+CASES += [
+    {"name": "pathway generator diagonalizes only what is diagonalized already (the repaired defect)", "kind": "mutant", "rule": "C12-M", "edits": [
+        ("quantarhei/builders/aggregate_spectroscopy.py", "        if not self._diagonalized:\n            if verbose > 0:\n                print(\"Diagonalizing aggregate\")\n            self.diagonalize()",
+         "        if self._diagonalized:\n            if verbose > 0:\n                print(\"Diagonalizing aggregate\")\n            self.diagonalize()", 2)]},
+]
